@@ -132,7 +132,7 @@ def analyse(fam, n):
             fail(p, f'kendalltau called {len(kts)} times')
             continue
         _, a, b = kts[0]
-        same = all(tz(a[i]).eq(tz(X[i, 0])) and tz(b[i]).eq(tz(X[i, 1])) for i in range(n)) and len(a) == n
+        same = len(a) == n and len(b) == n and all(tz(a[i]).eq(tz(X[i, 0])) and tz(b[i]).eq(tz(X[i, 1])) for i in range(n))
         if not same:
             fail(p, 'kendalltau was not applied to (column 0, column 1) of the data')
         taus = p.ctx.notes.get('taus', [])
@@ -192,29 +192,34 @@ def frank_residual():
     kt = stubs.KendallStub()
     with patches(kt):
         paths, ex, _ = explore(fn)
-    if len(paths) != 1 or paths[0].status != 'ok':
+    if not paths or any(p.status != 'ok' for p in paths):
         res['ok'] = False
         res['notes'].append('residual trace: ' + str([(p.status, repr(p.exc)) for p in paths]))
         return res
-    r, log = paths[0].value
-    q = [e for e in log if e[0] == 'quad']
-    if len(q) != 1:
-        res['ok'] = False
-        res['notes'].append('quad not called once')
-        return res
-    _, g, lo, hi = q[0]
     a = z3.Real('alpha')
     tau = z3.Real('tau')
-    spec = 1 + 4 / a * (stubs.Q(tz(lo), a) / a - 1) - tau
-    s = z3.Solver()
-    s.add(a != 0, tz(r) != spec)
-    res['nq'] += 1
-    if s.check() != z3.unsat or not tz(hi).eq(a):
-        res['ok'] = False
-        res['notes'].append(f'residual {tz(r)} is not the Debye relation {spec}')
-    if not (isinstance(lo, (float, np.floating)) and 0 <= float(lo) <= 1e-6):
-        res['ok'] = False
-        res['notes'].append(f'lower integration limit {lo}')
+    g = None
+    for p in paths:
+        r, log = p.value
+        q = [e for e in log if e[0] == 'quad']
+        if len(q) != 1:
+            res['ok'] = False
+            res['notes'].append(f'a path of the residual does not integrate (quad called {len(q)} times) under {p.ctx.pc[1:]}')
+            continue
+        _, g, lo, hi = q[0]
+        spec = 1 + 4 / a * (stubs.Q(tz(lo), a) / a - 1) - tau
+        s = z3.Solver()
+        s.add(*p.ctx.pc)
+        s.add(a != 0, tz(r) != spec)
+        res['nq'] += 1
+        if s.check() != z3.unsat or not tz(hi).eq(a):
+            res['ok'] = False
+            res['notes'].append(f'residual {tz(r)} is not the Debye relation {spec}')
+        if not (isinstance(lo, (float, np.floating)) and 0 <= float(lo) <= 1e-6):
+            res['ok'] = False
+            res['notes'].append(f'lower integration limit {lo}')
+    if g is None:
+        return res
     # integrand: t / (e^t - 1)
     with patches(kt):
         def fg(ctx):
@@ -291,7 +296,7 @@ def replay(d):
     if c.theta == 0:
         return True
     d1 = integrate.quad(lambda t: t / np.expm1(t), 0, c.theta)[0] / c.theta
-    return not np.isclose(1 - 4 / c.theta * (1 - d1), tau, atol=1e-5)
+    return not np.isclose(1 - 4 / c.theta * (1 - d1), tau, atol=2e-5, rtol=0)
 
 
 def concretise(fam, n, fl):
@@ -300,7 +305,10 @@ def concretise(fam, n, fl):
     cands = []
     if fl.get('data'):
         cands.append(fl['data'])
-    cands += [[[.1, .1], [.2, .4], [.3, .3], [.4, .2]], [[.1, .2], [.5, .6], [.9, .95]], [[.1, .9], [.5, .5], [.9, .1]],
+    hi = [[(i + 1) / 42.0, (i + 1) / 42.0] for i in range(40)]
+    hi[10][1], hi[11][1] = hi[11][1], hi[10][1]
+    hi2 = [[r[0], 1 - r[1]] for r in hi]
+    cands += [hi, hi2, [[.1, .1], [.2, .4], [.3, .3], [.4, .2]], [[.1, .2], [.5, .6], [.9, .95]], [[.1, .9], [.5, .5], [.9, .1]],
               [[.2, .3], [.4, .1], [.6, .8], [.8, .6]], [[.1, .5], [.3, .2], [.6, .9]]]
     return cands
 
@@ -329,11 +337,15 @@ def run(tier, seed):
             ck.ob('frank: residual handed to least_squares is the Debye relation; integrand t/(e^t-1)',
                   'unsat' if r['ok'] else 'sat', 0.0, queries=r['nq'])
             if not r['ok']:
-                rep = {'fam': 'frank', 'data': [[.1, .2], [.5, .6], [.9, .95], [.3, .1]]}
-                if replay(rep):
-                    ck.violation('frank:residual', 'Frank tau-theta residual is not the Debye relation: ' + '; '.join(r['notes']), rep)
-                else:
-                    ck.inconcl('frank residual: ' + '; '.join(r['notes']))
+                done = False
+                for data in concretise('frank', 4, {}):
+                    rep = {'fam': 'frank', 'data': data}
+                    if replay(rep):
+                        ck.violation('frank:residual', 'Frank tau-theta residual is not the Debye relation: ' + '; '.join(r['notes'])[:300], rep)
+                        done = True
+                        break
+                if not done:
+                    ck.inconcl('frank residual: ' + '; '.join(r['notes'])[:300])
             continue
         ck.paths += r['paths']
         ck.states += r['paths']
